@@ -137,9 +137,16 @@ Definition psi1_half (n : nat) : R :=           (* psi_1(n+1/2) *)
 Definition psi1_mhalf (n : nat) : R :=          (* psi_1(1/2 - n) *)
   PI ^ 2 / 2 + sumf (fun k => 4 / IZR (2 * Z.of_nat k + 1) ^ 2) n.
 
+(* psi_n, n >= 2, differences free of zeta values (see harness/c13/anchors.go polygammaN) *)
+Definition polyg_int_diff (n m : nat) : R :=
+  (-1) ^ n * IZR (zfact n) * sumf (fun k => 1 / IZR (Z.of_nat (Datatypes.S k)) ^ (Datatypes.S n)) m.
+Definition polyg_half_diff (n m : nat) : R :=
+  (-1) ^ n * IZR (zfact n) * sumf (fun k => (2 / IZR (2 * Z.of_nat k + 1)) ^ (Datatypes.S n)) m.
+
 (* modified Bessel functions of half-integer order.
    i_half n x = I_{n+1/2}(x), i_mhalf n x = I_{-(n+1/2)}(x), by the three-term recurrence
-   I_{v+1} = I_{v-1} - (2v/x) I_v from  I_{1/2} = sqrt(2/(pi x)) sinh x, I_{-1/2} = sqrt(2/(pi x)) cosh x *)
+   I_{v+1} = I_{v-1} - (2v/x) I_v (upwards) resp. I_{v-1} = I_{v+1} + (2v/x) I_v (downwards, v = -(k+1/2))
+   from  I_{1/2} = sqrt(2/(pi x)) sinh x, I_{-1/2} = sqrt(2/(pi x)) cosh x *)
 Fixpoint i_half_pair (n : nat) (x : R) : R * R :=   (* (I_{n+1/2}, I_{n-1/2}) *)
   match n with
   | O => (sqrt (2 / (PI * x)) * sinh x, sqrt (2 / (PI * x)) * cosh x)
@@ -149,7 +156,7 @@ Definition i_half (n : nat) (x : R) : R := fst (i_half_pair n x).
 Fixpoint i_mhalf_pair (n : nat) (x : R) : R * R :=  (* (I_{-(n+1/2)}, I_{-(n-1/2)}) *)
   match n with
   | O => (sqrt (2 / (PI * x)) * cosh x, sqrt (2 / (PI * x)) * sinh x)
-  | Datatypes.S k => let '(p, q) := i_mhalf_pair k x in (q + (2 * IZR (Z.of_nat k) + 1) / x * p, p)
+  | Datatypes.S k => let '(p, q) := i_mhalf_pair k x in (q - (2 * IZR (Z.of_nat k) + 1) / x * p, p)
   end.
 Definition i_mhalf (n : nat) (x : R) : R := fst (i_mhalf_pair n x).
 
